@@ -1,5 +1,6 @@
 import Driver.Proto
 import RsModel.Model.EqHash
+import RsModel.Model.Json
 /-!
 # `rsdriver`: reads protocol requests on stdin, answers on stdout, one line each.
 State: named trees and the store of cached maps (persisting until `reset`).
@@ -118,6 +119,14 @@ def step (d : DState) (line : String) : DState × String :=
         | [], _, _ => (d, "panic build")
         | _, _, _ => bad
       | none => bad
+    | none => bad
+  | "json-write" :: rest =>
+    match pSMap rest with
+    | some (m, []) => (d, showText (Json.writeSMap m))
+    | _ => bad
+  | ["json-parse", s] =>
+    match pText [s] with
+    | some (t, _) => (d, showOpt showSMap (Json.fromJson t))
     | none => bad
   | "enc" :: c :: rest =>
     match pBool [c], pList pMapping rest with
